@@ -4,3 +4,4 @@ import "testing"
 
 func TestC13(t *testing.T) { RunProp(t, propC13) }
 func TestC01(t *testing.T) { RunProp(t, propC01) }
+func TestC10(t *testing.T) { RunProp(t, propC10) }
